@@ -50,6 +50,18 @@ pub struct Ctx {
     pub raw: bool,
 }
 
+pub fn odd_uuid(kind: usize) -> Uuid {
+    let mut b = *Uuid::new_v4().as_bytes();
+    match kind % 5 {
+        0 => { b[6] = (b[6] & 0x0f) | 0x70; }
+        1 => { b[6] = (b[6] & 0x0f) | 0x10; }
+        2 => { b = [0xff; 16]; }
+        3 => { b[6] = (b[6] & 0x0f) | 0xe0; b[8] |= 0xc0; }
+        _ => { b[6] &= 0x0f; b[8] &= 0x3f; }
+    }
+    Uuid::from_bytes(b)
+}
+
 pub fn urg(u: SnapshotUrgency) -> &'static str {
     match u {
         SnapshotUrgency::None => "none",
@@ -544,6 +556,15 @@ impl Ctx {
                 r.ok().flatten().unwrap_or(Uuid::nil())
             }
             "client" => self.client(num(1) as u32),
+            // an id that is a well-formed UUID but was not minted by `Uuid::new_v4` (replicas and other
+            // server implementations choose their ids as they like): version 7, version 1, all ones,
+            // arbitrary bits
+            "odd" => odd_uuid(num(1)),
+            v if v.starts_with("$odd") => {
+                let key = v.to_string();
+                let kind = v[4..].chars().next().and_then(|c| c.to_digit(10)).unwrap_or(0) as usize;
+                *self.vars.entry(key).or_insert_with(|| odd_uuid(kind))
+            }
             v if v.starts_with('$') => {
                 // a named arbitrary id: the same uuid every time the name is used in this case
                 let key = v.to_string();
